@@ -233,6 +233,33 @@ def tlc_mc(module, cfg, wd, workers=4, timeout=900, coverage=True, constants=Non
     return res
 
 
+def apalache(module, init, inv, length, wd, cinit=None, timeout=1800, mutate=None, tag="apa"):
+    """Run apalache-mc check on spec/<module>.tla (typed module).  mutate: (old, new) text replacement applied to a copy of
+    the module (non-vacuity runs).  Returns "NoError" | "Error" (invariant violated); anything else is a tool error."""
+    d = os.path.join(wd, tag)
+    os.makedirs(d, exist_ok=True)
+    text = open(os.path.join(SPEC, module + ".tla")).read()
+    if mutate:
+        if mutate[0] not in text:
+            raise ToolError(f"apalache mutation anchor not found in {module}.tla")
+        text = text.replace(mutate[0], mutate[1])
+    with open(os.path.join(d, module + ".tla"), "w") as f:
+        f.write(text)
+    cmd = ["apalache-mc", "check", f"--out-dir={os.path.join(d, 'out')}", f"--init={init}", f"--inv={inv}", f"--length={length}"]
+    if cinit:
+        cmd.append(f"--cinit={cinit}")
+    cmd.append(module + ".tla")
+    try:
+        p = subprocess.run(cmd, cwd=d, timeout=timeout, stdout=subprocess.PIPE, stderr=subprocess.STDOUT, text=True)
+    except subprocess.TimeoutExpired:
+        raise ToolError(f"apalache timed out on {module} ({init} / {inv})")
+    m = re.search(r"The outcome is: (\w+)", p.stdout)
+    if not m or m.group(1) not in ("NoError", "Error"):
+        raise ToolError(f"apalache failed on {module} ({init} / {inv}): " + p.stdout[-600:])
+    shutil.rmtree(os.path.join(d, "out"), ignore_errors=True)
+    return m.group(1)
+
+
 def require_mc_ok(res, what):
     if not res["ok"]:
         tail = "\n".join(l for l in res["out"].splitlines()
